@@ -316,7 +316,7 @@ def run_check(pid: str, tier: str, seed: int, shards: int | None = None) -> int:
         p = ctx.Process(target=worker, args=(pid, tier, seed, i, per, out, shrink_calls))
         p.start()
         procs.append((p, out))
-    cap = float(os.environ.get("VERIF_WALL_CAP", "1500" if tier == "quick" else "7200"))
+    cap = float(os.environ.get("VERIF_WALL_CAP", "1500" if tier == "quick" else "14400"))
     harness_err = None
     merged = {"evaluations": 0, "refused": 0, "nt": set(), "classes": {}, "samples": [],
               "refusals": {}, "excluded": 0, "buckets": {}}
